@@ -461,6 +461,11 @@ def rule_scratch(fx, rep):
             seen.add((p, k))
         else:
             bad(f"piece-set/{p}/{k}", f"hash xors the ({p}, {k}) word over squares `{show(sq)[:120]}` which is not that colour's set of that kind", t.get("line"))
+    def in_closures_of_hash(suffix):
+        return [cb for cb in fx.bodies.values() if cb.kind == "Closure" and cb.name.startswith(h.name + "::{closure") and cb.calls_to(suffix)]
+    if not psites and in_closures_of_hash("zobrist::piece_on_square"):
+        rep.notes.append("C03-SCRATCH: piece words are xored inside closures of `hash` (folds over constant arrays); the 12 piece sets are not decided")
+        loop_pieces = True
     if loop_pieces:
         rep.notes.append("C03-SCRATCH: piece words are xored in a loop over (colour, kind); the iteration domain is not decided statically")
     else:
@@ -519,6 +524,9 @@ def rule_scratch(fx, rep):
             seen_r.add((p, s))
         else:
             bad(f"right/{p}/{s}", f"hash xors the ({p}, {s}) castling word under flag `{flag}` of rights[{owner}] (expected `{want_flag}` of rights[{pdisc}])", t.get("line"))
+    if not h.calls_to("zobrist::castle_rights") and in_closures_of_hash("zobrist::castle_rights"):
+        rep.notes.append("C03-SCRATCH: castling words are xored inside closures of `hash`; the 4 rights are not decided")
+        loop_rights = True
     if loop_rights:
         rep.notes.append("C03-SCRATCH: castling words are xored in a loop; the iteration domain is not decided statically")
     else:
